@@ -332,6 +332,12 @@ def check_full_report(sheets, exp, run, schedule, props):
                     bad.append(f"event timestamp {vals[5][0]} != {ev.timestamp}")
                 if not close(vals[8][0], Fr(str(g.taxable_event_fiat_amount_with_fee_fraction))):
                     bad.append(f"proceeds {vals[8][0]} != {g.taxable_event_fiat_amount_with_fee_fraction}")
+                # the remaining event columns: fraction of the event, its spot price and unique id
+                ev_total = Fr(str(ev.crypto_balance_change))
+                if ev_total != 0 and not close(vals[7][0], Fr(str(g.crypto_amount)) / ev_total, rel=1e-8):
+                    bad.append(f"event fraction % {vals[7][0]} != {float(Fr(str(g.crypto_amount)) / ev_total)}")
+                if not close(vals[9][0], Fr(str(ev.spot_price))):
+                    bad.append(f"event spot price {vals[9][0]} != {ev.spot_price}")
                 lab = str(vals[11][0])
                 if alle is not None and not lab.startswith(f"{frac_ev[g.internal_id]}/{n_ev[ev.internal_id]}:"):
                     bad.append(f"event fraction label {lab[:8]!r}, expected {frac_ev[g.internal_id]}/{n_ev[ev.internal_id]}")
@@ -340,6 +346,16 @@ def check_full_report(sheets, exp, run, schedule, props):
                         bad.append(f"lot timestamp {vals[12][0]} != {lot.timestamp}")
                     if not close(vals[16][0], Fr(str(g.fiat_cost_basis))):
                         bad.append(f"cost basis {vals[16][0]} != {g.fiat_cost_basis}")
+                    lot_total = Fr(str(lot.crypto_in))
+                    pct = Fr(str(g.crypto_amount)) / lot_total
+                    if not close(vals[13][0], pct, rel=1e-8):
+                        bad.append(f"lot fraction % {vals[13][0]} != {float(pct)}")
+                    if not close(vals[14][0], Fr(str(lot.fiat_in_with_fee)) * pct, rel=1e-8):
+                        bad.append(f"lot amount fraction {vals[14][0]} != {float(Fr(str(lot.fiat_in_with_fee)) * pct)}")
+                    if not close(vals[15][0], Fr(str(lot.fiat_fee)) * pct, rel=1e-8):
+                        bad.append(f"lot fee fraction {vals[15][0]} != {float(Fr(str(lot.fiat_fee)) * pct)}")
+                    if not close(vals[17][0], Fr(str(lot.spot_price))):
+                        bad.append(f"lot spot price {vals[17][0]} != {lot.spot_price}")
                     lab2 = str(vals[19][0])
                     if alle is not None and not lab2.startswith(f"{frac_lot[g.internal_id]}/{n_lot[lot.internal_id]}:"):
                         bad.append(f"lot fraction label {lab2[:8]!r}, expected {frac_lot[g.internal_id]}/{n_lot[lot.internal_id]}")
@@ -1120,6 +1136,12 @@ def search_C11(n_random, seed):
                                         bad.append(f"crypto fee left on the acquisition: {g.crypto_fee}")
                                     if abs(Decimal(str(g.fiat_fee)) - fee * dec11(t["spot"])) > Decimal("1e-20") * max(1, fee * dec11(t["spot"])):
                                         bad.append(f"fiat value of the crypto fee {g.fiat_fee} != {fee * dec11(t['spot'])}")
+                                    # cost basis of the split acquisition: supplied values, or crypto_in*spot (+ the fee's fiat value)
+                                    no_fee = dec11(t["fiat_in_no_fee"]) if t.get("fiat_in_no_fee") is not None and mapped("IN", "fiat_in_no_fee") else dec11(t["amount"]) * dec11(t["spot"])
+                                    with_fee = dec11(t["fiat_in_with_fee"]) if t.get("fiat_in_with_fee") is not None and mapped("IN", "fiat_in_with_fee") else no_fee + fee * dec11(t["spot"])
+                                    for fld, want_v in (("fiat_in_no_fee", no_fee), ("fiat_in_with_fee", with_fee)):
+                                        if abs(Decimal(str(getattr(g, fld))) - want_v) > Decimal("1e-18") * max(1, abs(want_v)):
+                                            bad.append(f"{fld} of the split acquisition {getattr(g, fld)} != {want_v}")
                                     twins = [a for a in got["OUT"] if int(a.internal_id) <= 0 and a.timestamp == g.timestamp and a.exchange == g.exchange and a.holder == g.holder
                                              and Decimal(str(a.crypto_fee)) == fee and Decimal(str(a.crypto_out_no_fee)) == 0 and a.transaction_type.value == "fee"
                                              and Decimal(str(a.spot_price)) == dec11(t["spot"])]
